@@ -483,7 +483,25 @@ func runFlood(transport string, qsize int) FloodRec {
 		}
 		for i := range counts {
 			i := i
-			cc.AddOnClose(func() { counts[i].Add(1) })
+			cc.AddOnClose(func() {
+				counts[i].Add(1)
+				if i == 0 {
+					// the first callback is slow, and while it runs somebody registers further callbacks (late: whether those run is
+					// not judged) - the ones registered before the close still run, each once
+					late := make(chan struct{})
+					go func() {
+						defer close(late)
+						for k := 0; k < 3; k++ {
+							cc.AddOnClose(func() {})
+						}
+					}()
+					select {
+					case <-late:
+					case <-time.After(20 * time.Millisecond):
+					}
+					time.Sleep(time.Millisecond)
+				}
+			})
 		}
 		to := cc.LocalAddr().(*net.UDPAddr)
 		for k := 0; k < qsize+6; k++ {
@@ -498,7 +516,23 @@ func runFlood(transport string, qsize int) FloodRec {
 		})
 		for i := range counts {
 			i := i
-			t.CC.AddOnClose(func() { counts[i].Add(1) })
+			t.CC.AddOnClose(func() {
+				counts[i].Add(1)
+				if i == 0 {
+					late := make(chan struct{})
+					go func() {
+						defer close(late)
+						for k := 0; k < 3; k++ {
+							t.CC.AddOnClose(func() {})
+						}
+					}()
+					select {
+					case <-late:
+					case <-time.After(20 * time.Millisecond):
+					}
+					time.Sleep(time.Millisecond)
+				}
+			})
 		}
 		t.Stream.Feed(conns.Frame(int(codes.CSM), []byte{1}, nil, nil))
 		for k := 0; k < qsize+6; k++ {
